@@ -124,9 +124,12 @@ class TradeNoUpdate(object):
             return True
         amount = self.frac * target.value
         if self.how == "transact":
-            target.transact(amount / px, child=self.child, update=False)
+            # a trade booked on the security itself, with the refresh left to whoever drives the tree
+            target._create_child_if_needed(self.child)
+            target.children[self.child].transact(amount / px, update=False)
         else:
-            target.allocate(amount, child=self.child, update=False)
+            # what the Rebalance algo does for each of its targets (it then refreshes the tree itself, this algo does not)
+            target.rebalance(abs(self.frac), self.child, update=False)
         return True
 
 
